@@ -196,3 +196,43 @@ T('pkgL_t_stderr_pump_hoisted_partial', ['C20'],
 T('pkgL_t_error_app_builder_keywords', ['C20'],
   (SV, "        from clastic import flaw\n        err_app = flaw.create_app(tb_str, monitored_files)\n        err_server = make_server(hostname, port, err_app)\n",
        "        from clastic.flaw import create_app\n        err_server = make_server(hostname, port, create_app(monitored_files=monitored_files, traceback_string=tb_str))\n"))
+B('pkgL_b_strict_slashes', ['C20'], 'R20.b',
+  (FL, "from .application import Application\n", "from .application import Application, S_STRICT\n"),
+  (FL, "    app = Application(routes, resources, render_factory=arf)\n", "    app = Application(routes, resources, render_factory=arf, slash_mode=S_STRICT)\n"))
+B('pkgL_b_factory_with_own_filters', ['C20'], 'R20.c',
+  (FL, "    arf = AshesRenderFactory()\n", "    arf = AshesRenderFactory(filters={'h': lambda s: s.replace('<', '&lt;')})\n"))
+B('pkgL_b_file_list_shown_conditionally', ['C20'], 'R20.c',
+  (FL, "    <p>Monitoring:\n", "    {?mon_files}<p>Monitoring:\n"), (FL, "    </p>\n  </body>", "    </p>{/mon_files}\n  </body>"))
+B('pkgL_b_file_list_recreated_per_round', ['C20'], 'R20.e',
+  (SV, "    to_mon = []\n    while 1:\n        print(' * Clastic restarting with reloader')\n", "    while 1:\n        to_mon = []\n        print(' * Clastic restarting with reloader')\n"))
+T('pkgL_t_default_configuration_spelled_out', ['C20'],
+  (FL, "from .application import Application\n", "from .application import Application, S_REDIRECT\n"),
+  (FL, "    app = Application(routes, resources, render_factory=arf)\n", "    app = Application(routes, resources, middlewares=[], render_factory=arf, error_handler=None, slash_mode=S_REDIRECT)\n"))
+T('pkgL_t_context_pairs_and_unpacking', ['C20'],
+  (FL, _LAST + _CTX, "    context = dict([('mon_files', mon_files), ('all_mon_files', all_mon_files), ('parsed_err', parsed_error)])\n"
+       "    try:\n        context['last_line'] = tb_str.splitlines()[-1]\n    except:\n        context['last_line'] = u'Unknown error'\n"
+       "    return {**context, 'tb_str': tb_str}\n"))
+T('pkgL_t_stderr_pump_object', ['C20'],
+  (SV, "        def consume_lines():\n            for line in iter(child_proc.stderr.readline, ''):\n                if not line:\n                    break\n"
+       "                line_text = line.decode('utf8')\n                if line_text.startswith(_MON_PREFIX):\n"
+       "                    to_mon[:] = literal_eval(line_text[len(_MON_PREFIX):])\n                else:\n"
+       "                    sys.stderr.write(line_text)\n                    stderr_buff.append(line_text)\n",
+       "        consume_lines = _StderrPump(child_proc, to_mon, stderr_buff)\n"),
+  (SV, "def restart_with_reloader(error_func=None):\n", "class _StderrPump(object):\n    def __init__(self, proc, files, buff):\n        self.proc, self.buff = proc, buff\n        self.files = files\n\n"
+       "    def __call__(self):\n        for line in iter(self.proc.stderr.readline, ''):\n            if not line:\n                break\n"
+       "            line_text = line.decode('utf8')\n            if line_text.startswith(_MON_PREFIX):\n"
+       "                self.files[:] = literal_eval(line_text[len(_MON_PREFIX):])\n            else:\n"
+       "                sys.stderr.write(line_text)\n                self.buff.append(line_text)\n\n\n"
+       "def restart_with_reloader(error_func=None):\n"))
+B('pkgL_b_pump_object_rebinds_attribute', ['C20'], 'R20.e',
+  (SV, "        def consume_lines():\n            for line in iter(child_proc.stderr.readline, ''):\n                if not line:\n                    break\n"
+       "                line_text = line.decode('utf8')\n                if line_text.startswith(_MON_PREFIX):\n"
+       "                    to_mon[:] = literal_eval(line_text[len(_MON_PREFIX):])\n                else:\n"
+       "                    sys.stderr.write(line_text)\n                    stderr_buff.append(line_text)\n",
+       "        consume_lines = _StderrPump(child_proc, to_mon, stderr_buff)\n"),
+  (SV, "def restart_with_reloader(error_func=None):\n", "class _StderrPump(object):\n    def __init__(self, proc, files, buff):\n        self.proc, self.buff = proc, buff\n        self.files = files\n\n"
+       "    def __call__(self):\n        for line in iter(self.proc.stderr.readline, ''):\n            if not line:\n                break\n"
+       "            line_text = line.decode('utf8')\n            if line_text.startswith(_MON_PREFIX):\n"
+       "                self.files = literal_eval(line_text[len(_MON_PREFIX):])\n            else:\n"
+       "                sys.stderr.write(line_text)\n                self.buff.append(line_text)\n\n\n"
+       "def restart_with_reloader(error_func=None):\n"))
